@@ -18,7 +18,7 @@ import struct
 import zlib
 
 from harness import vloop, wire, peer as P
-from harness.c01_util import BufferTap, BufferView, H2Watch, mask_summary, recv_endpoint
+from harness.c01_util import BufferTap, BufferView, H2Watch, list_codec, mask_summary, recv_endpoint
 from harness.core import Result
 from harness.svc import RawCodec, Service, exc_name
 
@@ -450,19 +450,56 @@ def run_psend(loop, c, rng_factory, hw):
             elif isinstance(e, StreamEnded) and e.stream_id == sid:
                 ended = True
     rounds = 0
+    script = []          # what the peer did, in order (for the failing-input report)
+    idle_credit = None
+    # (HEADER_TABLE_SIZE is left alone: repeated changes of it before the next header block trip hpack
+    # itself -- "Encoder did not shrink table size" -- which is not grpclib's doing)
+    other = {SettingCodes.MAX_CONCURRENT_STREAMS: [1, 10, 100, 1000],
+             SettingCodes.MAX_HEADER_LIST_SIZE: [16384, 65536]}
     while True:
         loop.run_quiet(1)
         drain()
         if len(wire_bytes) >= total or rounds > 400:
             break
+        # the loop is quiescent and the sender still has bytes to send: it must have used up every byte
+        # of credit the peer has granted -- however that credit was granted (WINDOW_UPDATE on the stream,
+        # on the connection, or a SETTINGS frame changing INITIAL_WINDOW_SIZE alone or with other settings)
+        try:
+            credit = peer.h2.remote_flow_control_window(sid)
+        except Exception:
+            credit = None
+        if credit is not None and credit > 0 and not peer.violations:
+            idle_credit = credit
+            break
         rounds += 1
-        # the sender is out of credit (or done): the peer acts
+        # the sender is out of credit: the peer acts
         r = rng.random()
         left = total - len(wire_bytes)
+        if c.get('actions') and rounds <= len(c['actions']):
+            # explicit script (corpus cases): ['settings', {code: value}] | ['window_update', stream?, n]
+            act = c['actions'][rounds - 1]
+            if act[0] == 'settings':
+                peer.settings({SettingCodes(int(k)): v for k, v in act[1].items()})
+            else:
+                peer.window_update(sid if act[1] else 0, act[2])
+            script.append('%s:%s' % (act[0], act[1:]))
+            continue
         if r < 0.1:
             peer.settings({SettingCodes.MAX_FRAME_SIZE: rng.choice(MAXFRAMES + [20000])})
-        elif r < 0.2:
-            peer.settings({SettingCodes.INITIAL_WINDOW_SIZE: rng.choice([0, 1, 100, 65535, 70000, c['iw']])})
+            script.append('settings:max_frame')
+        elif r < 0.35:
+            # re-open (or shrink) the stream through SETTINGS, alone or together with unrelated settings
+            change = {SettingCodes.INITIAL_WINDOW_SIZE:
+                      rng.choice([0, 1, 100, 65535, 70000, c['iw'], c['iw'] + left, 1 << 20])}
+            for code in rng.sample(sorted(other), rng.choice([0, 0, 1, 2])):
+                change[code] = rng.choice(other[code])
+            if rng.random() < 0.2:
+                change[SettingCodes.MAX_FRAME_SIZE] = rng.choice(MAXFRAMES)
+            try:
+                peer.settings(change)
+                script.append('settings:' + '+'.join(sorted(str(int(k)) for k in change)))
+            except Exception:
+                pass
         else:
             inc = rng.choice([1, 2, 5, 1000, 16384, 16385, 65535, left, left, 2 * left])
             inc = max(1, min(inc, (1 << 30)))
@@ -472,6 +509,7 @@ def run_psend(loop, c, rng_factory, hw):
                     peer.window_update(sid, inc)
                 if which in ('c', 'both'):
                     peer.window_update(0, inc)
+                script.append('window_update:%s:%d' % (which, inc))
             except Exception:
                 pass
         if rounds > 300:         # make sure the case ends: open both windows wide
@@ -491,6 +529,7 @@ def run_psend(loop, c, rng_factory, hw):
         drain()
     return {'frames': frames, 'wire': bytes(wire_bytes), 'obs': state['obs'], 'marks': marks, 'msgs': msgs,
             'violations': [type(v).__name__ for v in peer.violations], 'rounds': rounds,
+            'idle_credit': idle_credit, 'script': script[-12:],
             'ended': ended, 'task': vloop.outcome(task)[0] if task is not None else None}
 
 
@@ -542,12 +581,16 @@ def check_psend(ctx, res, cases, rng_factory):
         # frame fitted the window and frame size the peer had granted (strict h2 raised otherwise)
         exp = b''.join(grpc_frame(m) for m in o['msgs'])
         sig = None
-        if o['wire'] != exp:
+        if not exp.startswith(o['wire']):
             sig, what = 'wire-bytes', 'bytes sent differ from the frames of the messages (%d vs %d bytes)' % (
                 len(o['wire']), len(exp))
         elif o['violations']:
             sig, what = 'flow-control', 'peer h2 rejected what grpclib sent: %s' % o['violations'][:2]
-        elif not complete or o['rounds'] > 400:
+        elif o.get('idle_credit'):
+            sig, what = 'sender-stalled', ('the sender sits idle with %d bytes of flow-control credit and %d bytes '
+                                           'unsent (last peer actions: %s): the message never arrives' % (
+                                               o['idle_credit'], len(exp) - len(o['wire']), o['script'][-3:]))
+        elif o['wire'] != exp or not complete or o['rounds'] > 400:
             sig, what = 'sender-stalled', 'sender did not finish although credit kept coming'
         if sig:
             res.oracle_failures.append({'case': c, 'what': what, 'signature': {'kind': 'psend', 'fail': sig},
@@ -558,10 +601,12 @@ def gen_psend_cases(ctx, rng):
     cases = []
     combos = [(iw, cw, mf) for iw in WINDOWS for cw in WINDOWS for mf in MAXFRAMES]
     rng.shuffle(combos)
-    n = ctx.n(27, 27 * 4)
+    n = ctx.n(27 * 8, 27 * 40)
     for j in range(n):
         iw, cw, mf = combos[j % len(combos)]
-        window = min(iw, cw)
+        if rng.random() < 0.25:
+            iw = rng.choice([0, 1000, 20000])        # a peer may advertise any stream window, also none at all
+        window = max(min(iw, cw), 1000)
         menu = size_menu(min(mf, 16385), window)
         big = window >= (1 << 20)
         k = rng.choice([1, 2, 3]) if not big else 1
@@ -576,11 +621,50 @@ def gen_psend_cases(ctx, rng):
 
 # ---- recording what reaches the buffers -----------------------------------------------------------------
 
+def codec_of(c):
+    """'raw': messages are bytes (b'' is falsy); 'list': messages are lists of byte values ([] is falsy)"""
+    return list_codec() if c.get('codec') == 'list' else RawCodec()
+
+
+def peer_headers(c, headers):
+    """the scripted peer names the codec in content-type, as a real peer with that codec would"""
+    if c.get('codec') != 'list':
+        return headers
+    return [(k, v + '+bytelist' if k == 'content-type' else v) for k, v in headers]
+
+
+def as_message(c, m):
+    return list(m) if c.get('codec') == 'list' else m
+
+
+async def consume_stream(st, got, how, rng, delays, pauses):
+    """the application side of the property: a recv_message loop until None, or `async for` (the stream's
+    own iteration protocol); what it saw goes to `got` (None = end-of-stream, an exception = what was raised)"""
+    try:
+        if how == 'iter':
+            async for m in st:
+                got.append(m)
+                if delays and rng.random() < 0.3:
+                    await asyncio.sleep(rng.choice(pauses))
+            got.append(None)
+            return
+        while True:
+            m = await st.recv_message()
+            got.append(m)
+            if m is None:
+                return
+            if delays and rng.random() < 0.3:
+                await asyncio.sleep(rng.choice(pauses))
+    except Exception as e:
+        got.append(e)
+        raise
+
+
 def tokens_of(got):
     out = []
     for g in got:
-        if isinstance(g, bytes):
-            out.append('M' + digest(g))
+        if isinstance(g, (bytes, list)):
+            out.append('M' + digest(bytes(g)))
         elif g is None:
             out.append('EOS')
         else:
@@ -631,20 +715,10 @@ def run_precv(loop, c, rng_factory, tap):
     delays = c.get('delays', False)
 
     async def consume(st):
-        try:
-            while True:
-                m = await st.recv_message()
-                got.append(m)
-                if m is None:
-                    break
-                if delays and rng.random() < 0.3:
-                    await asyncio.sleep(rng.choice([0.001, 0.5, 3]))
-        except Exception as e:
-            got.append(e)
-            raise
+        await consume_stream(st, got, c.get('consume', 'recv'), rng, delays, [0.001, 0.5, 3])
 
     if c['side'] == 'client':
-        end = wire.ClientEnd(loop, config=cfg)
+        end = wire.ClientEnd(loop, config=cfg, codec=codec_of(c))
         method = StreamStreamMethod(end.channel, '/v.S/M', bytes, bytes)
 
         async def call():
@@ -656,15 +730,15 @@ def run_precv(loop, c, rng_factory, tap):
         loop.run_quiet(1)
         peer = end.peer
         sid = [e for e in peer.take_events() if isinstance(e, RequestReceived)][0].stream_id
-        peer.headers(sid, P.RESP_HEADERS)
+        peer.headers(sid, peer_headers(c, P.RESP_HEADERS))
     else:
         async def handler(st):
             await consume(st)
-        end = wire.ServerEnd(loop, [Service('v.S', {'M': (handler, 'SS')})], config=cfg)
+        end = wire.ServerEnd(loop, [Service('v.S', {'M': (handler, 'SS')})], config=cfg, codec=codec_of(c))
         loop.run_quiet(1)
         peer = end.peer
         peer.take_events()
-        sid = peer.request(P.REQ_HEADERS)
+        sid = peer.request(peer_headers(c, P.REQ_HEADERS))
         task = None
     loop.run_quiet(1)
     max_frame = min(peer.h2.max_outbound_frame_size, c.get('max_frame', 16384))
@@ -791,6 +865,11 @@ def check_recv_e2e(ctx, res, cases, rng_factory, runner, label):
                                             'signature': {'kind': label, 'fail': kind},
                                             'observed': {'received': d['got'][:10],
                                                          'frames': (d['seen'] or [])[:30]}})
+            if d.get('send_error'):
+                res.oracle_failures.append({'case': c, 'what': '%s %s: send_message raised %s: the message is '
+                                            'never delivered' % (label, d['name'], d['send_error']),
+                                            'signature': {'kind': label, 'fail': 'send-failed'},
+                                            'observed': {'received': d['got'][:10]}})
             if d['stalled']:
                 res.oracle_failures.append({'case': c, 'what': '%s %s: the receiver stopped returning '
                                             'flow-control credit; the sender can never finish' % (label, d['name']),
@@ -821,7 +900,9 @@ def gen_precv_cases(ctx, rng):
             sizes = [rng.choice(menu) for _ in range(rng.choice([0, 1, 2, 3, 4]))]
         c = {'kind': 'precv', 'side': rng.choice(['client', 'server']), 'sw': sw, 'cw': cw,
              'sizes': sizes, 'seed': rng.randrange(1, 1000), 'keep': -1, 'tail': '',
-             'script': rng.randrange(1 << 30), 'delays': rng.random() < 0.4, 'end': True}
+             'script': rng.randrange(1 << 30), 'delays': rng.random() < 0.4, 'end': True,
+             'consume': rng.choice(['recv', 'iter']),
+             'codec': 'list' if sum(sizes) < 100000 and rng.random() < 0.3 else 'raw'}
         if rng.random() < 0.25 and sizes:
             full = len(recv_stream(c))
             start = full - (5 + sizes[-1])
@@ -832,43 +913,52 @@ def gen_precv_cases(ctx, rng):
 
 # ---- (e) real client <-> real server over a re-cutting link ------------------------------------------------
 
+def link_calls(c):
+    """[(sizes_up, sizes_down)] of the concurrent calls of a link case (they share one connection)"""
+    return [(c['sizes_up'], c['sizes_down'])] + [(m['sizes_up'], m['sizes_down']) for m in c.get('more', [])]
+
+
 def run_link(loop, c, rng_factory, tap):
     from grpclib.client import Channel, StreamStreamMethod
     from grpclib.config import Configuration
     from grpclib.server import Server
     rng = rng_factory(c['script'])
-    A = [gen_msg(c['seed'], i, n) for i, n in enumerate(c['sizes_up'])]
-    B = [gen_msg(c['seed'] + 1, i, n) for i, n in enumerate(c['sizes_down'])]
-    got_srv, got_cli = [], []
+    calls = link_calls(c)
+    # call k sends messages of seed+2k up and receives messages of seed+2k+1
+    up = [[gen_msg(c['seed'] + 2 * k, i, n) for i, n in enumerate(su)] for k, (su, sd) in enumerate(calls)]
+    down = [[gen_msg(c['seed'] + 2 * k + 1, i, n) for i, n in enumerate(sd)] for k, (su, sd) in enumerate(calls)]
+    got_srv = [[] for _ in calls]
+    got_cli = [[] for _ in calls]
+    send_err = {}
     delays = c.get('delays', False)
+    pause = c.get('pause')
+    state = {'mf_applied': True, 'link': None, 'requested': 0}
+    go = asyncio.Event()
+    if not pause:
+        go.set()
 
-    async def pump(st, got, name):
+    async def push(st, msgs, name):
         try:
-            while True:
-                m = await st.recv_message()
-                got.append(m)
-                if m is None:
-                    return
-                if delays and rng.random() < 0.3:
-                    await asyncio.sleep(rng.choice([0.001, 0.2, 2]))
+            for m in msgs:
+                await st.send_message(as_message(c, m))
+                if delays and rng.random() < 0.2:
+                    await asyncio.sleep(rng.choice([0.001, 0.3]))
         except Exception as e:
-            got.append(e)
+            send_err[name] = e
             raise
 
-    async def push(st, msgs):
-        for m in msgs:
-            await st.send_message(m)
-            if delays and rng.random() < 0.2:
-                await asyncio.sleep(rng.choice([0.001, 0.3]))
-
     async def handler(st):
-        await asyncio.gather(pump(st, got_srv, 'up'), push(st, B))
+        k = int(st.metadata.get('call', '0'))
+        await go.wait()
+        await asyncio.gather(consume_stream(st, got_srv[k], c.get('consume_up', 'recv'), rng, delays,
+                                            [0.001, 0.2, 2]),
+                             push(st, down[k], 'down%d' % k))
 
     ccfg = Configuration(http2_connection_window_size=c['ccw'], http2_stream_window_size=c['csw'])
     scfg = Configuration(http2_connection_window_size=c['scw'], http2_stream_window_size=c['ssw'])
-    ch = Channel(codec=RawCodec(), config=ccfg)
-    srv = Server([Service('v.S', {'M': (handler, 'SS')})], codec=RawCodec(), config=scfg)
-    small = sum(c['sizes_up']) + sum(c['sizes_down']) < 3000
+    ch = Channel(codec=codec_of(c), config=ccfg)
+    srv = Server([Service('v.S', {'M': (handler, 'SS')})], codec=codec_of(c), config=scfg)
+    small = sum(sum(su) + sum(sd) for su, sd in calls) < 3000
     mode = c['cut']
 
     def cutter(data):
@@ -888,6 +978,7 @@ def run_link(loop, c, rng_factory, tap):
         mark = hw.mark()
         cp, sp = factory(), wire.protocol_factory_of(srv)()
         link = wire.Link(loop, cp, sp, cutter)
+        state['link'] = link
         cp.connection_made(link.ta)
         sp.connection_made(link.tb)
         if c.get('mf'):
@@ -903,33 +994,67 @@ def run_link(loop, c, rng_factory, tap):
             else:
                 state['mf_applied'] = False
         return link.ta, cp
-    state = {'mf_applied': True}
     loop.create_connection = create_connection
     loop.create_unix_connection = create_connection
     method = StreamStreamMethod(ch, '/v.S/M', bytes, bytes)
 
-    async def call():
-        async with method.open() as st:
+    async def call(k):
+        async with method.open(metadata={'call': str(k)}) as st:
             await st.send_request()
+            state['requested'] += 1
+            await go.wait()
 
             async def tx():
-                await push(st, A)
+                await push(st, up[k], 'up%d' % k)
                 await st.end()
-            await asyncio.gather(tx(), pump(st, got_cli, 'down'))
-    task = loop.create_task(call())
-    r = loop.run_quiet(2000)
-    out = vloop.outcome(task)
+            await asyncio.gather(tx(), consume_stream(st, got_cli[k], c.get('consume_down', 'recv'), rng,
+                                                      delays, [0.001, 0.2, 2]))
+
+    async def back_pressure():
+        """the transports' write buffers fill up and drain (asyncio calls pause_writing / resume_writing):
+        'first' = both ends are paused before any message is sent and released later; 'rand' = at PRNG moments"""
+        while state['requested'] < len(calls) or state['link'] is None:
+            await asyncio.sleep(0.001)
+        link = state['link']
+        ends = [link.ta, link.tb]
+        if pause == 'first':
+            for tr in ends:
+                tr.pause()
+            go.set()
+            await asyncio.sleep(rng.choice([0.001, 0.5, 5]))
+            for tr in rng.sample(ends, 2):
+                tr.resume()
+                await asyncio.sleep(rng.choice([0, 0.001, 1]))
+        else:
+            go.set()
+            for _ in range(rng.choice([1, 2, 4, 8])):
+                tr = rng.choice(ends)
+                await asyncio.sleep(rng.choice([0, 0.0001, 0.001, 0.1, 1]))
+                tr.pause()
+                await asyncio.sleep(rng.choice([0.0001, 0.001, 0.1, 1]))
+                tr.resume()
+        for tr in ends:
+            tr.resume()
+    tasks = [loop.create_task(call(k)) for k in range(len(calls))]
+    bp = loop.create_task(back_pressure()) if pause else None
+    loop.run_quiet(3000)
+    if bp is not None and not bp.done():
+        bp.cancel()
     dirs = []
-    streams = {'up': b''.join(grpc_frame(m) for m in A), 'down': b''.join(grpc_frame(m) for m in B)}
+    streams = {}
+    for k in range(len(calls)):
+        streams['up%d' % k] = b''.join(grpc_frame(m) for m in up[k])
+        streams['down%d' % k] = b''.join(grpc_frame(m) for m in down[k])
     seen = tap.assign(streams)
-    for name, got, msgs, seed, sizes in (('up', got_srv, A, c['seed'], c['sizes_up']),
-                                         ('down', got_cli, B, c['seed'] + 1, c['sizes_down'])):
-        stream = streams[name]
-        dirs.append({'name': name, 'got': tokens_of(got), 'sent': None,
-                     'seen': seen[name],
-                     'stalled': out[0] == 'pending', 'stream': stream, 'ended': True,
-                     'mcase': {'seed': seed, 'keep': -1, 'tail': '', 'sizes': sizes}})
-    return {'dirs': dirs, 'task': out[0], 'mf_applied': state['mf_applied']}
+    for k, (su, sd) in enumerate(calls):
+        out = vloop.outcome(tasks[k])
+        for name, got, seed, sizes in (('up%d' % k, got_srv[k], c['seed'] + 2 * k, su),
+                                       ('down%d' % k, got_cli[k], c['seed'] + 2 * k + 1, sd)):
+            dirs.append({'name': name, 'got': tokens_of(got), 'sent': None, 'seen': seen[name],
+                         'stalled': out[0] == 'pending', 'stream': streams[name], 'ended': True,
+                         'send_error': err_token(send_err[name]) if name in send_err else None,
+                         'mcase': {'seed': seed, 'keep': -1, 'tail': '', 'sizes': sizes}})
+    return {'dirs': dirs, 'task': [vloop.outcome(t)[0] for t in tasks], 'mf_applied': state['mf_applied']}
 
 
 def gen_link_cases(ctx, rng):
@@ -945,11 +1070,20 @@ def gen_link_cases(ctx, rng):
             if window >= (1 << 20):
                 return [rng.choice(menu if j % 5 == 0 else menu[:9])]
             return [rng.choice(menu) for _ in range(rng.choice([0, 1, 2, 3]))]
-        cases.append({'kind': 'link', 'ccw': ws[0], 'csw': ws[1], 'scw': ws[2], 'ssw': ws[3],
-                      'sizes_up': pick(wup), 'sizes_down': pick(wdown), 'seed': rng.randrange(1, 1000),
-                      'script': rng.randrange(1 << 30), 'delays': rng.random() < 0.4,
-                      'cut': rng.choice(['none', 'bytes', 'rand', 'rand']),
-                      'mf': rng.choice([None, None, 16385, (1 << 24) - 1])})
+        case = {'kind': 'link', 'ccw': ws[0], 'csw': ws[1], 'scw': ws[2], 'ssw': ws[3],
+                'sizes_up': pick(wup), 'sizes_down': pick(wdown), 'seed': rng.randrange(1, 1000),
+                'script': rng.randrange(1 << 30), 'delays': rng.random() < 0.4,
+                'cut': rng.choice(['none', 'bytes', 'rand', 'rand']),
+                'mf': rng.choice([None, None, 16385, (1 << 24) - 1]),
+                'consume_up': rng.choice(['recv', 'iter']), 'consume_down': rng.choice(['recv', 'iter']),
+                'pause': rng.choice([None, None, 'first', 'first', 'rand'])}
+        if not big and rng.random() < 0.5:
+            # more calls on the same connection: they compete for the connection-level window
+            case['more'] = [{'sizes_up': pick(wup), 'sizes_down': pick(wdown)}
+                            for _ in range(rng.choice([1, 1, 2]))]
+        total = sum(sum(su) + sum(sd) for su, sd in link_calls(case))
+        case['codec'] = 'list' if total < 100000 and rng.random() < 0.3 else 'raw'
+        cases.append(case)
     return cases
 
 
